@@ -254,6 +254,7 @@ func genWire(r *Rand, g GenCfg) Plan {
 		}
 		for v := 0; v < 4; v++ {
 			add(XStep{Op: "sig", Tok: v % 2, Kind: "nonce_is_signed_part", Val: v})
+			add(XStep{Op: "sig", Tok: v % 2, Kind: "meta_huge_uint", Val: v})
 		}
 		if g.Index%4 == 2 {
 			add(XStep{Op: "sig", Tok: r.Intn(2), Kind: "churn", Val: Pick(r, []int{0, 1, 2, 2})})
